@@ -10,6 +10,7 @@
 import os, re, resource, subprocess, time
 import common, filecheck, pdfgen, c04guards
 from common import hexs
+from pdfgen import D, N, Ref
 
 ASSUMPTIONS = [
     "guard theorems (Sys/C04GuardProofs.v) speak about the Gallina models of Sys/Guards.v, over abstract object graphs without a node of id 0; the models are tied to /repo by the random-graph correspondence of this check (CLI outcome category, page / entry / helper / warning counts, driver results), not by a proof about the C++",
@@ -184,7 +185,7 @@ def run(chk):
         p, m, n = j
         out = p + ".out"
         args = list(m)
-        if m and m[0] in ("--check", "--show-pages", "--list-attachments"):
+        if m and m[0] in ("--check", "--show-pages", "--list-attachments", "--check-linearization", "--show-linearization"):
             args = args + [p]
         elif m and m[0] == "--json-output":
             args = args + [p, out]
@@ -235,6 +236,90 @@ def run(chk):
         chk.violation({"kind": "property-fails-on-implementation", "why": "filter pipeline crashed / sanitizer abort / logic_error under ASan+UBSan",
                        "case": l[:600], "driver_output": o[:600]}, signature="c04:filter")
     chk.count("filters-asan", len(lines), set(l for l, o in zip(lines, outs) if o.endswith(" 1")), samples=[{"case": lines[0][:120]}])
+
+    # ---- protective memory limits of the decoders: with the limit on, an expanding input fed in several writes must be refused
+    # at the first write that takes the decoded size past the limit (one write may overshoot by its own expansion), never only at
+    # finish() after everything was buffered.  Run-length: each 2-byte pair 0x81 0x00 expands to 128 bytes.
+    llines, lmeta = [], []
+    for lim in ([100000, 1000000] if quick else [1000, 100000, 1000000, 5000000]):
+        for csize in ([1024, 10240, 65536] if quick else [2, 64, 1024, 10240, 32768, 65536]):
+            per = (csize // 2) * 128
+            nch = min(400, int(lim // per) + 12)
+            llines.append("limit rld %d %d %s" % (lim, nch, (b"\x81\x00" * (csize // 2)).hex()))
+            lmeta.append(("rld", lim, csize, per, nch))
+    louts = common.run_lines(drv_asan, llines, env=env)
+    nlim = set()
+    for (f, lim, csize, per, nch), o in zip(lmeta, louts):
+        try:
+            raised_at = int(o.split()[0])
+        except Exception:
+            raised_at = None
+        first_over = int(lim // per) + 1          # the write during which the decoded size first exceeds the limit
+        if raised_at is None or raised_at <= 0 or raised_at > first_over + 1:
+            chk.violation({"kind": "property-fails-on-implementation", "why": "decoder memory limit not enforced while data is written: limit %d bytes, "
+                           "%d-byte writes each expanding to %d bytes; the limit is passed during write %d but the error came %s" % (
+                               lim, csize, per, first_over, "only from finish()" if raised_at == 0 else ("never" if raised_at == -1 else "at write %s" % raised_at)),
+                           "case": llines[len(nlim)][:80], "driver_output": o[:200]}, signature="c04:limit:%s" % f)
+        nlim.add((f, lim, csize))
+    chk.count("decoder-memory-limits", len(llines), nlim, samples=[{"case": llines[0][:80]}])
+
+    # ---- linearization parameters of real linearized files replaced, in place and without changing the file length, by values
+    # at and beyond the ends of their ranges (negative, zero, 2^31, 2^32, 2^40 ...): --check / --check-linearization /
+    # --show-linearization read hint tables at offsets computed from them
+    ldocs = []
+    for npg in (1, 3):
+        d = pdfgen.page_doc(npg, marker="L")
+        ol = d.add(None)
+        it = d.add(None)
+        d.objects[ol.n] = D(Type=N("Outlines"), First=it, Last=it, Count=1)
+        d.objects[it.n] = D(Title=pdfgen.Str(b"one"), Parent=ol, Dest=[Ref(5), N("Fit")])
+        d.objects[1][b"Outlines"] = ol
+        src = os.path.join(wd, "linsrc%d.pdf" % npg)
+        open(src, "wb").write(pdfgen.write_classic(d)[0])
+        for cfg in ([], ["--object-streams=generate"]):
+            lo = os.path.join(wd, "lin%d_%d.pdf" % (npg, len(cfg)))
+            rc, so, se = common.run_qpdf(["--static-id", "--linearize"] + cfg + [src, lo])
+            if rc == 0:
+                ldocs.append(open(lo, "rb").read())
+    lin_inputs = []
+    vals = [b"-1", b"-16", b"-2147483648", b"-4294967296", b"-1099511627776", b"0", b"1", b"2147483647", b"4294967295", b"4294967296", b"99999999999"]
+    for data in ldocs:
+        head = data[:1200]
+        # numbers after /L /H[a b] /O /E /N /T in the parameter dictionary and after /S /O /Length in the hint stream dictionary
+        spots = [(m.start(1), m.end(1)) for m in re.finditer(rb"/(?:L|O|E|N|T|S|Length) (\d+)", data[:3000])]
+        spots += [(m.start(g), m.end(g)) for m in re.finditer(rb"/H \[ ?(\d+) (\d+) ?\]", head) for g in (1, 2)]
+        for a, b in spots:
+            for v in (vals if not quick else rng.sample(vals, 5)):
+                w = b - a
+                # keep the file length: pad with blanks when shorter; when longer, eat following blanks if there are enough
+                if len(v) <= w:
+                    rep = v + b" " * (w - len(v))
+                    lin_inputs.append(data[:a] + rep + data[b:])
+                else:
+                    extra = len(v) - w
+                    if data[b:b + extra + 1].strip() == b"":
+                        lin_inputs.append(data[:a] + v + data[b + extra:])
+    ljobs = []
+    for i, data in enumerate(lin_inputs):
+        p = os.path.join(wd, "linmut%d.pdf" % i)
+        open(p, "wb").write(data)
+        for m in (["--check"], ["--check-linearization"], ["--show-linearization"]):
+            ljobs.append((p, m, len(data)))
+    lres = common.par_map(runjob, ljobs, workers=14)
+    lk = {}
+    lnon = set()
+    for (p, m, n), (cls, rc, se) in zip(ljobs, lres):
+        lk[cls + "/exit%s" % rc] = lk.get(cls + "/exit%s" % rc, 0) + 1
+        if rc in (2, 3):
+            lnon.add(p)
+        if cls != "ok":
+            cls2, rc2, se2 = runjob((p, m, n))
+            if cls2 != "ok":
+                chk.violation({"kind": "property-fails-on-implementation", "why": "qpdf did not end in a documented way on a linearized file with an "
+                               "out-of-range parameter: " + cls2, "input": p, "argv": ["qpdf"] + m, "exit": rc2,
+                               "stderr_tail": se2.decode("latin-1")[-1200:]}, signature="c04:lin:%s:%s" % (cls2, " ".join(m)))
+    chk.count("linearization-parameters-asan", len(ljobs), lnon, samples=[{"input": os.path.basename(ljobs[0][0]), "mode": ljobs[0][1]}] if ljobs else [])
+    chk.cov["parts"]["linearization-parameters-asan"]["outcome_classes"] = lk
 
     # ---- guard logic: random hostile graphs, real qpdf / driver vs the extracted model of Sys/Guards.v
     diffs, fails = c04guards.run_part(chk, quick)
